@@ -105,6 +105,7 @@ class Session:
         self.finished = threading.Event()
         self.next_id = 0
         self.clock = None
+        self.clocks = []
 
     def check_done(self):
         if self.driver_done and self.outstanding == 0:
@@ -150,11 +151,15 @@ class Session:
         try:
             for step in case['steps']:
                 # the driver itself is a routine that yields numbers: where (beat, second) it woke up this time
-                self.events.append({'dwake': 1, 'beats': enc(c.beats), 'secs': enc(c.seconds)})
+                self.events.append({'dwake': 1, 'beats': enc(self.clock.beats), 'secs': enc(self.clock.seconds)})
                 for act in step['acts']:
                     k += 1
                     ev = {'k': k, 'now': enc(c.seconds), 'elapsed': enc(M.elapsed_time())}
                     self.events.append(ev)
+                    c = self.clock
+                    if act[0] == 'on':          # the act is made (from this routine) on another TempoClock
+                        c = self.clocks[act[1]]
+                        act = act[2]
                     kind = act[0]
                     try:
                         if kind == 'sleep':
@@ -200,7 +205,14 @@ class Session:
             self.check_done()
             return None
         self.clock = c
+        self.clocks = [c]
         self.out['init'] = state(c)
+        # more TempoClocks in the same process: what happens to one must not move the tasks of another
+        self.out['extra'] = []
+        for j in self.case.get('extra', []):
+            x = TempoClock(dec(j['tempo']), dec(j['beats']), seconds if MODE == 'rt' else dec(j['seconds']))
+            self.clocks.append(x)
+            self.out['extra'].append(state(x))
         return c
 
     def first_play(self, c, now):
@@ -251,11 +263,11 @@ def run_rt(cases, budget):
         if not s.finished.wait(max(0.05, deadline - time.time())):
             s.out['error'] = 'timeout: driver_done=%s outstanding=%d' % (s.driver_done, s.outstanding)
     for s in sessions:
-        try:
-            if s.clock is not None:
-                s.clock.stop()
-        except Exception:
-            pass
+        for x in s.clocks:
+            try:
+                x.stop()
+            except Exception:
+                pass
     return [s.out for s in sessions]
 
 
